@@ -316,6 +316,37 @@ theorem payload_with_transaction_only_if_hash_matches (cfg : Cfg) (env : Env) (n
   · exact (addCheck_added hc).2.2.2.2.2 p rfl
   · exact absurd h hne
 
+/-- the two cooperating guards as the source has them: a public transaction in a list needs a payload of non-zero LENGTH
+    (a present-but-empty `optional bytes` field does not count), and `state.Add` hash-checks and stores every non-nil payload -/
+theorem fact_payload_presence_guards :
+    Facts.C15.listPayloadGuard = "len(tx.PAL()) == 0 && len(msg.Transactions[i].Payload) == 0" ∧
+    Facts.C15.stateAddPayloadGuard = "payload != nil" := by decide
+
+/-- **a public transaction enters the DAG through a TransactionList only together with a non-empty payload that hashes
+    to its payload hash** — so nobody can plant a public transaction carrying the payload hash of a private one without
+    knowing that payload (which is what keeps `PrivSeparate` true of DAGs built by the protocol) -/
+theorem public_tx_admitted_only_with_payload (cfg : Cfg) (env : Env) (n : Node) (tx : Tx) (pl : Option Payload)
+    (hp : tx.pal = []) (h : (addLoop cfg env n [(tx, pl)]).node.dag ≠ n.dag) :
+    ∃ p, pl = some p ∧ p.len ≠ 0 ∧ p.sha = tx.payloadHash := by
+  unfold addLoop at h
+  by_cases hnp : (tx.pal.isEmpty && payloadEmpty pl) = true
+  · simp [hnp] at h
+  · simp only [hnp, Bool.false_eq_true, if_false] at h
+    cases pl with
+    | none => simp [hp, payloadEmpty] at hnp
+    | some p =>
+      have hlen : p.len ≠ 0 := by
+        intro h0; apply hnp; simp [hp, payloadEmpty, h0]
+      rcases addTx_cases cfg env n tx (some p) with ⟨hr, hc, hnode⟩ | ⟨hr, hnode, hres⟩
+      · exact ⟨p, rfl, hlen, (addCheck_added hc).2.2.2.2.2 p rfl⟩
+      · exfalso
+        apply h
+        generalize hq : addTx cfg env n tx (some p) = q at hr hnode h ⊢
+        obtain ⟨n1, out1, r⟩ := q
+        simp only at hr hnode
+        subst hnode
+        cases r <;> simp [addLoop] at hr ⊢
+
 /-! ### authentication -/
 
 /-- `Network.Configure` assigns the authenticator in exactly two places: the TLS authenticator under `tlsEnabled`,
@@ -450,6 +481,17 @@ theorem fact_encrypt_and_authenticator_stateless :
     Facts.C15.encryptContinues = 0 ∧ Facts.C15.encryptLoopChecks = ["err != nil", "!ok"] ∧ Facts.C15.encryptChecksAllReturnError = true ∧
     Facts.C15.tlsAuthenticatorFields = ["serviceResolver"] ∧ Facts.C15.authenticateReceiver = "tlsAuthenticator" ∧
     Facts.C15.authenticatorPackageVars = [] := by decide
+
+/-- with TLS offloading the certificate used for authentication is the one in the SINGLE header value: any other
+    multiplicity (none, or a client-supplied value next to the proxy's) is refused -/
+theorem offloaded_certificate_needs_exactly_one_value (vals : List HeaderVal) (owner : String)
+    (h : offloadedCertificate vals = some owner) : vals = [.cert owner] := by
+  match vals, h with
+  | [.cert o], h => simp [offloadedCertificate] at h; rw [h]
+
+theorem fact_offloading_header_checks :
+    Facts.C15.offloadHeaderCountCheck = "len(values) != 1" ∧ Facts.C15.offloadCertificateCountCheck = "len(certificates) != 1" ∧
+    Facts.C15.offloadValueIndex = ["0", "0"] := by decide
 
 /-! ### non-vacuity: a node holding a private transaction for [A, B]; B (listed, authenticated) gets the payload,
     C (unlisted) and an unauthenticated B get the empty response; hypotheses of the theorems are met -/
